@@ -12,16 +12,20 @@ DESIGN_REF = "DESIGN.md §9 C20, §12.C20"
 COQ_TARGETS = ["Properties/C20", "Pins/C20"]
 THEOREMS = [("PdfV.Properties.C20", n) for n in
             ["C20_closed", "C20_equal", "C20_once", "C20_reachable_only", "C20_total", "C20_never_panics",
-             "C20_page_resources", "C20_page_pruned", "C20_tables", "C20_old_order_refuted", "C20_categories_refuted"]]
+             "C20_page_resources", "C20_page_pruned", "C20_tables", "C20_old_order_refuted", "C20_categories_refuted",
+             "C20_graph_iso", "C20_edges", "C20_copy_determined", "C20_stream_equal", "C20_dict_equal", "C20_page_present",
+             "C20_target_steps", "C20_target_valid", "C20_reload_object", "C20_reload_stream"]]
 ANCHORS = ["build.rs", "content.rs:deep_clone_op", "types.rs:struct Resources", "object/mod.rs:Primitive::deep_clone", "file.rs:Storage::empty"]
 MODES = ["import_graph", "import"]
 TRUSTED_BASE = ["coqc 8.16.1 kernel (vm_compute for table lemmas and witnesses; no native_compute)",
                 "gen/extract_import.py (regenerates from build.rs / content.rs / types.rs / object/mod.rs / file.rs the tables the model runs on)",
                 "Extraction + ExtrOcamlBasic, ocamlfind ocamlopt 4.13.1, coq/driver/main.ml",
-                "harness pdfh (modes import_graph, import), tools/vplib, tools/oracle/graph.py + pdfwriter.py + codecs.py (spec side)",
+                "harness pdfh (modes import_graph, import; histories and cache configurations are executed on the real crate only — the model "
+                "receives the source graph after the updates), tools/vplib, tools/oracle/graph.py + pdfwriter.py + codecs.py (spec side)",
                 "typed cloning (XObject, ExtGState, forms' resources) is modelled by the clone of the dictionary form and tied by correspondence up to "
                 "renumbering and key order; Content::from_ops / CatalogBuilder::build / Storage::save are judged by the spec oracle only"]
-ASSUMPTIONS = ["the source resolver answers by object number (generation ignored) and stream bytes are what Resolve::stream_data returns (model parameter `fetch`)",
+ASSUMPTIONS = ["C20_reload_object / C20_reload_stream: Storage.Model.save succeeds (premise, as in C09_reload) and the source objects are in C04's storable domain within MAX_DEPTH",
+               "the source resolver answers by object number (generation ignored) and stream bytes are what Resolve::stream_data returns (model parameter `fetch`)",
                "Storage::promise / fulfill hand out consecutive ids from 1 and store one value per id (generated anchor import_first_id; correspondence compares ids exactly)"]
 RULE = ("import_graph: random object graphs of 1..14 objects (nested arrays/dictionaries/streams with data, shared objects, self loops and longer "
         "cycles, dangling references, repeated roots) written as files (classic table, xref stream, object streams) — judged for closure, equality "
@@ -30,7 +34,13 @@ RULE = ("import_graph: random object graphs of 1..14 objects (nested arrays/dict
         "indirect / shared resources and nested forms, ExtGStates direct and indirect, inherited boxes and resources, two-level page trees, content "
         "arrays, metadata and untyped page entries, planted cycles of eight kinds, object streams) x page subsets/orders with repetition, and the "
         "repository's sample files — judged by the page view, content tokens, every used resource's content, closure and single copy; "
-        "non-trivial = at least two source objects reachable; distinct by (mode, file, selection)")
+        "every case with a cache configuration (source / target / reload with or without object + stream caches) and, for about three "
+        "quarters of them, a history on the SOURCE before the import: pages rendered, images decoded (image_data / raw_image_data), fonts' "
+        "embedded data read, operations parsed, single streams decoded / read raw / loaded typed, objects updated but not saved (same value, "
+        "a touched dictionary, a new pending stream linked in) — the specification applies the updates to the source graph and requires the "
+        "reading steps to change nothing; filters: hex, a85, rle, lzw, flate, chains up to three, image codecs that stop the decode early "
+        "(dct, jpx behind ascii filters); stream data is judged by raw bytes + filter chain, and by the decoded bytes as far as decodable; "
+        "non-trivial = at least two source objects reachable; distinct by (mode, file, selection, configuration, history)")
 CASE_TIMEOUT = 30.0
 MODEL_TIMEOUT = 120.0
 
@@ -49,6 +59,110 @@ def norm(r):
         except Exception:
             return m.group(0)
     return ("OK", [REAL_RE.sub(sub, f) for f in r[1]])
+
+
+# ---------------------------------------------------------------------------------------------------
+# histories on the source before the import (harness/src/modes/import.rs: flags c C r, field `hist`)
+
+def apply_updates(g, steps):
+    """the source graph after the update steps U / T / N of a history (ISO 32000-1 §7.5.6: the current state of a
+    document is what its latest definitions say; a pending change is the latest definition).  -> new graph"""
+    g = dict(g)
+    fresh = max(g) + 50
+    for kind, k in steps:
+        if kind not in "TN" or k not in g:
+            continue
+        v = g[k]
+        if kind == "T":
+            key, val = "VTouched", 7
+        else:
+            fresh += 1
+            g[fresh] = Stream({}, b"generated data for %d" % k)
+            key, val = "VNew", Ref(fresh)
+        if isinstance(v, Stream):
+            d = dict(v.d)
+            d.setdefault("Length", v.raw_len if v.raw_len is not None else len(v.data))     # the file states /Length before the new key
+            d[key] = val
+            g[k] = Stream(d, v.data, v.raw_len)
+        elif isinstance(v, dict):
+            d = dict(v)
+            d[key] = val
+            g[k] = d
+    return g
+
+
+def hist_text(steps):
+    return b";".join(b"%s%d" % (k.encode(), n) for k, n in steps)
+
+
+def rnd_config(rng, with_hist):
+    """flags: the source / the target / the reloading with or without the caches"""
+    fl = b""
+    if rng.random() < (0.8 if with_hist else 0.4):
+        fl += b"c"
+    if rng.random() < 0.3:
+        fl += b"C"
+    if rng.random() < 0.2:
+        fl += b"r"
+    return fl
+
+
+HIST_KINDS = ["none", "none", "render", "render-all", "images", "raw-images", "fonts", "ops", "decode-all", "decode-some", "raw-some",
+              "typed-get", "update", "touch", "new-object", "mixed"]
+
+
+def rnd_page_history(rng, doc, sel, kind=None):
+    """-> (kind, steps [(letter, number)])"""
+    kind = kind or rng.choice(HIST_KINDS)
+    npages = len(doc.pages)
+    streams = [n for n, v in doc.objs.items() if isinstance(v, Stream)]
+    tree = set([doc.root]) | set(n for n, v in doc.objs.items() if isinstance(v, dict) and v.get("Type") == Name("Pages"))
+    # resource dictionaries are read through the typed `Resources` (no catch-all field): an entry added to one is dropped by
+    # the typed layer (the C20-d / C15 class), so the update steps leave them alone
+    resdicts = set()
+    for v in doc.objs.values():
+        d = v.d if isinstance(v, Stream) else v
+        if isinstance(d, dict) and isinstance(d.get("Resources"), Ref):
+            resdicts.add(d["Resources"].num)
+    plain = [n for n, v in doc.objs.items() if n not in tree and n not in resdicts and isinstance(v, (dict, Stream))]
+    pages = sorted(set(sel))
+    steps = []
+    if kind == "render":
+        steps = [("P", i) for i in pages]
+    elif kind == "render-all":
+        steps = [("P", i) for i in range(npages)]
+    elif kind == "images":
+        steps = [("I", i) for i in pages]
+    elif kind == "raw-images":
+        steps = [("W", i) for i in pages] + ([("I", i) for i in pages] if rng.random() < 0.5 else [])
+    elif kind == "fonts":
+        steps = [("F", i) for i in pages]
+    elif kind == "ops":
+        steps = [("O", i) for i in pages]
+    elif kind == "decode-all":
+        steps = [("D", n) for n in streams]
+    elif kind == "decode-some":
+        steps = [("D", n) for n in rng.sample(streams, min(len(streams), rng.randrange(1, 4)))]
+    elif kind == "raw-some":
+        steps = [(rng.choice("RD"), n) for n in rng.sample(streams, min(len(streams), rng.randrange(1, 4)))]
+    elif kind == "typed-get":
+        steps = [("G", n) for n in rng.sample(streams, min(len(streams), rng.randrange(1, 4)))]
+    elif kind == "update":
+        steps = [("U", n) for n in rng.sample(plain, min(len(plain), rng.randrange(1, 4)))]
+    elif kind == "touch":
+        steps = [("T", n) for n in rng.sample(plain, min(len(plain), rng.randrange(1, 3)))]
+    elif kind == "new-object":
+        steps = [("N", n) for n in rng.sample(plain, min(len(plain), 1))]
+    elif kind == "mixed":
+        for _ in range(rng.randrange(2, 7)):
+            c = rng.choice("PIWFODDRGUT")
+            if c in "PIWFO":
+                steps.append((c, rng.randrange(npages)))
+            elif c in "DRG" and streams:
+                steps.append((c, rng.choice(streams)))
+            elif plain:
+                steps.append((c, rng.choice(plain)))
+    return kind, steps
 
 
 # ---------------------------------------------------------------------------------------------------
@@ -102,7 +216,7 @@ def rnd_graph(rng, shape=None):
             v = rnd_value(rng, tgt, rng.randrange(0, 4))
             if rng.random() < 0.25:
                 d = v if isinstance(v, dict) else {"V": v}
-                v = docs.enc_stream(rng, d, bytes(rng.randrange(256) for _ in range(rng.randrange(0, 12))), rng.choice(["none", "hex", "flate"]))
+                v = docs.enc_stream(rng, d, bytes(rng.randrange(256) for _ in range(rng.randrange(0, 12))), rng.choice(docs.TEXT_FILTERS + ["dct", "a85+dct"]))
         objs[i] = v
     if shape == "cycle" and n >= 2:
         for a, b in zip(ids, ids[1:] + ids[:1]):
@@ -177,11 +291,40 @@ def judge_graph(g, roots):
     return chk
 
 
-def graph_case(rng, objs, roots, tags=(), spec=True):
+def rnd_graph_history(rng, objs, shape):
+    streams = [n for n, v in objs.items() if isinstance(v, Stream)]
+    plain = [n for n, v in objs.items() if isinstance(v, (dict, Stream))]
+    kind = rng.choice(["none", "none", "decode-all", "decode-some", "raw-some", "typed-get", "update", "touch", "new-object", "mixed"])
+    steps = []
+    if kind == "decode-all":
+        steps = [("D", n) for n in streams]
+    elif kind in ("decode-some", "raw-some", "typed-get") and streams:
+        steps = [({"decode-some": "D", "raw-some": rng.choice("RD"), "typed-get": "G"}[kind], n) for n in rng.sample(streams, min(len(streams), 2))]
+    elif kind == "update" and plain:
+        steps = [("U", n) for n in rng.sample(plain, min(len(plain), 2))]
+    elif kind == "touch" and plain:
+        steps = [("T", n) for n in rng.sample(plain, min(len(plain), 2))]
+    elif kind == "new-object" and plain and shape != "dangling":
+        steps = [("N", rng.choice(plain))]
+    elif kind == "mixed":
+        for _ in range(rng.randrange(2, 6)):
+            c = rng.choice("DDRGUT")
+            pool = streams if c in "DRG" else plain
+            if pool:
+                steps.append((c, rng.choice(pool)))
+    return kind, steps
+
+
+def graph_case(rng, objs, roots, tags=(), spec=True, hist=None, flags=None):
     data, allo = write_graph_file(rng, objs)
     rt = roots_text(roots)
-    return Case("import_graph", [b"s", data, rt], mfields=[graph_text(allo), rt],
-                check=judge_graph(allo, roots) if spec else None, tags=["graph"] + list(tags))
+    kind, steps = hist if hist is not None else ("none", [])
+    g2 = apply_updates(allo, steps)
+    if flags is None:
+        flags = rnd_config(rng, bool(steps)).replace(b"r", b"")
+    fields = [b"s", data, rt] + ([flags or b"-", hist_text(steps)] if (steps or flags) else [])
+    return Case("import_graph", fields, mfields=[graph_text(g2), rt],
+                check=judge_graph(g2, roots) if spec else None, tags=["graph", "hist:" + kind] + ["cfg:" + (flags.decode() or "-")] + list(tags))
 
 
 # ---------------------------------------------------------------------------------------------------
@@ -275,12 +418,17 @@ def same(a, b):
     return same_result(norm(a), norm(b))
 
 
-def page_case(rng, doc, sel, tags=(), kind="structured"):
+def page_case(rng, doc, sel, tags=(), kind="structured", hist=None, flags=None):
+    """hist = (kind, steps) done on the source before the import; flags = cache configuration (None: random)"""
     data = docs.write(doc, rng)
-    g = dict(doc.objs)
+    hkind, steps = hist if hist is not None else ("none", [])
+    g = apply_updates(dict(doc.objs), steps)
+    if flags is None:
+        flags = rnd_config(rng, bool(steps))
     tr = {"Root": Ref(doc.root)}
     pt = b"".join(page_text(g, tr, i) + b"\n" for i in sel)
     st = b",".join(b"%d" % i for i in sel)
+    tags = list(tags) + ["hist:" + hkind, "cfg:" + (flags.decode() or "-")]
 
     def chk(r, g=g, tr=tr, sel=list(sel), exp=doc.expect):
         if r[0] == "ERR":
@@ -291,8 +439,8 @@ def page_case(rng, doc, sel, tags=(), kind="structured"):
         return G.judge_import(g, tr, sel, r[1], expect=exp)
     # the model clones dictionary forms; a value the typed writers refuse (ColorSpace::to_primitive for DeviceGray …)
     # ends the real import in an error the model cannot predict: such documents are judged by the spec only
-    return Case("import", [b"s", data, st, b"-"], mfields=[graph_text(g), pt], check=chk, model="typed-writer-refuses" not in doc.features,
-                tags=["pages"] + sorted(doc.features) + list(tags), kind=kind)
+    return Case("import", [b"s", data, st, flags or b"-"] + ([hist_text(steps)] if steps else []), mfields=[graph_text(g), pt], check=chk,
+                model="typed-writer-refuses" not in doc.features, tags=["pages"] + sorted(doc.features) + list(tags), kind=kind)
 
 
 def corpus_cases(tier):
@@ -369,7 +517,7 @@ def generate(rng, tier):
     n_graph = 400 if quick else 6000
     for i in range(n_graph):
         objs, roots, shape = rnd_graph(rng)
-        yield graph_case(rng, objs, roots, tags=["shape:" + shape])
+        yield graph_case(rng, objs, roots, tags=["shape:" + shape], hist=rnd_graph_history(rng, objs, shape))
     # fixed small shapes: self loop, two-cycle, diamond (shared object), chain, stream in a cycle
     a, b, c, d = 4, 5, 6, 7
     fixed = [
@@ -400,7 +548,16 @@ def generate(rng, tier):
                 rng.shuffle(p)
                 sels.append(p)
         for sel in sels:
-            yield page_case(rng, doc, sel)
+            yield page_case(rng, doc, sel, hist=rnd_page_history(rng, doc, sel))
+    # what a viewer does before the user extracts pages: the source (opened with its caches) is looked at first —
+    # every page rendered, or every stream decoded — and only then imported; and the same with pending updates
+    for i in range(40 if quick else 600):
+        doc = docs.gen_doc(rng)
+        k = len(doc.pages)
+        sel = list(range(k)) if i % 2 == 0 else [rng.randrange(k) for _ in range(rng.randrange(1, 3))]
+        hk = ["render-all", "decode-all", "images", "raw-images", "fonts", "mixed", "touch", "new-object"][i % 8]
+        fl = [b"c", b"c", b"cC", b"cr", b"cCr"][i % 5]
+        yield page_case(rng, doc, sel, tags=["viewer-first"], hist=rnd_page_history(rng, doc, sel, hk), flags=fl)
     # every subset and order of the pages of small documents
     if not quick:
         import itertools
@@ -481,7 +638,11 @@ def coverage_extra(cases, impl, model):
             if ":" in t and not t.startswith("witness:") and not t.startswith("corpus:"):
                 feats[t] = feats.get(t, 0) + 1
     errs = sum(1 for c, r in zip(cases, impl) if r and r[0] == "ERR" and c.mode == "import" and "malformed" not in c.tags)
+    hist_panics = sum(1 for c, r in zip(cases, impl) if r and r[0] == "ERR" and "history:panic" in r[1])
+    cached_hist = sum(1 for c in cases if any(t.startswith("cfg:c") for t in c.tags) and not any(t == "hist:none" for t in c.tags)
+                      and any(t.startswith("hist:") for t in c.tags))
     return {"generator_features": dict(sorted(feats.items())), "imports_ending_in_error": errs,
+            "histories_on_cached_sources": cached_hist, "histories_that_panicked_before_the_import": hist_panics,
             "workarounds": ["single revision, no bytes before the header", "only dictionaries in object streams",
                             "images state /ImageMask and /Interpolate explicitly; DeviceGray images rare (ColorSpace::to_primitive unimplemented)",
                             "no inherited /Rotate (Page::rotate is not inherited by the reader)", "content-array parts end with white-space",
